@@ -59,9 +59,14 @@ def oracle(case) -> Result:
     nontrivial = False
     for winners in combos:
         su.set_winner_coefficients(sn, spec, winners, case['aseed'])
+        # export must follow the CURRENT coefficients whether or not a forward pass with them
+        # happened: alternate the order (the previous combination's hard sample is then stale)
+        export_first = (len(winners) + sum(winners.values()) + case['aseed']) % 2 == 0
+        exported = must(res, 'export', sn.export) if export_first else None
         with torch.no_grad():
             y_sn = must(res, 'supernet-forward', sn, x)
-        exported = must(res, 'export', sn.export)
+        if not export_first:
+            exported = must(res, 'export', sn.export)
         if y_sn is None or exported is None:
             return res
         exported.eval()
@@ -115,7 +120,7 @@ def oracle(case) -> Result:
             nontrivial = True
     res.nontrivial = nontrivial
     res.ev(*ng.spec_features(spec))
-    res.ev('winners:exhaustive' if exhaustive else 'winners:sampled',
+    res.ev('export-before-and-after-forward', 'winners:exhaustive' if exhaustive else 'winners:sampled',
            f"blocks:{len(blocks)}")
     if any(len(b['branches']) >= 11 for b in blocks):
         res.ev('block-with-12-branches')
@@ -135,7 +140,7 @@ CHECK = Check(
     prop='C03',
     parts=[
         Part('nets', oracle, strategy=cases(),
-             budget={'quick': 150, 'thorough': 700}, shards={'quick': 1, 'thorough': 16}),
+             budget={'quick': 150, 'thorough': 300}, shards={'quick': 1, 'thorough': 16}),
     ],
     rule=("Generated 1-D/2-D networks with 1..3 choice blocks of 2..12 branches (single conv "
           "k in {1,3,5}, nn.Sequential, user-defined two-layer block with module / functional / no "
